@@ -1,6 +1,8 @@
 import Firebolt.Model.Tracker
 import Firebolt.Generated.Source
 import Firebolt.Expected.Source
+import Firebolt.Generated.Closure
+import Firebolt.Expected.Closure
 /-!
 # C08 — Recovery requests are never lost by merging and replicate as full snapshots
 
@@ -487,5 +489,9 @@ theorem source_trackerMax : GeneratedSrc.trackerMax = ExpectedSrc.trackerMax := 
 theorem source_trackerMin : GeneratedSrc.trackerMin = ExpectedSrc.trackerMin := by rfl
 
 theorem source_kcReceive : GeneratedSrc.kcReceive = ExpectedSrc.kcReceive := by rfl
+
+/-! ### influence closure: the pinned functions, and every function of the repository that writes a struct field or package
+variable they read, are unchanged (digests regenerated from /repo on every run; a difference names the functions) -/
+theorem closure_unchanged : GeneratedClo.C08 = ExpectedClo.C08 := by rfl
 
 end Firebolt.C08
